@@ -61,3 +61,17 @@ func VerifDecFilter(kind string, p []byte, base, bps, n, thresh, ithresh, hevThr
 		panic("VerifDecFilter: unknown kind " + kind)
 	}
 }
+
+// VerifSegmentMatrices builds the three quantisation matrices of quantiser index q
+// (0..127) exactly as setupSegment does (all deltas 0): y1 with its sharpening
+// row, y2 (dc*2 >= 8, KAcTable2) and uv (dc index capped at 117).
+func VerifSegmentMatrices(q int) (y1, y2, uv SegmentQuant) {
+	y1 = VerifInitSegmentQuant(int(KDcTable[clampInt(q, 0, 127)]), int(KAcTable[clampInt(q, 0, 127)]), 0, true)
+	y2dc := int(KDcTable[clampInt(q, 0, 127)]) * 2
+	if y2dc < 8 {
+		y2dc = 8
+	}
+	y2 = VerifInitSegmentQuant(y2dc, int(KAcTable2[clampInt(q, 0, 127)]), 1, false)
+	uv = VerifInitSegmentQuant(int(KDcTable[clampInt(q, 0, 117)]), int(KAcTable[clampInt(q, 0, 127)]), 2, false)
+	return
+}
